@@ -110,6 +110,19 @@ func (v *VClock) Advance(t time.Time) int {
 	return n
 }
 
+// ArmedCount returns the number of timers that are armed (created, not fired, not stopped).
+func (v *VClock) ArmedCount() int {
+	v.mu.Lock()
+	defer v.mu.Unlock()
+	n := 0
+	for _, t := range v.timers {
+		if t.armed {
+			n++
+		}
+	}
+	return n
+}
+
 // Last returns the most recently created timer.
 func (v *VClock) Last() *vtimer {
 	v.mu.Lock()
